@@ -122,6 +122,14 @@ CHECKS = {
              '{{delete: False}}); !call results / !bind partials must equal what the rule + native call give, errors must be EvalError with the native cause.',
         note='Gap indices on keyword-only parameters, same-name strings and call<->bind changes are outside the statement and not generated.',
         design='4/C13'),
+    'C19': dict(
+        technique='property-based round-trip and substitution testing (Hypothesis): deepcopy / pickle copies of generated parsed and merged trees compared node by node, substituted in merges, evaluated, and mutated',
+        text='(A) parsed documents over the full tag vocabulary, (B) trees merged from 1-3 documents: copies by deepcopy and by pickle must have '
+             'the same node kinds, content, priority, safety, targets/reference points/file names and metadata at every path, share no node '
+             'object, merge identically as older and as newer stage against random tagged stages, evaluate identically, and stay unchanged '
+             'when the other tree is mutated.',
+        note='delete / allow_new flags are compared through merge behaviour, not attribute by attribute.',
+        design='4/C19'),
     'C15': dict(
         technique='property-based metamorphic testing (Hypothesis): five relations (determinism, idempotence, empty-neutral, key permutation, flag-neutral) per generated sequence',
         text='Each generated sequence over priority/!del/!merge tags is rebuilt twice, with the last document repeated, with {} inserted at every '
